@@ -34,9 +34,9 @@ def _cds_blocks(ex, a, b, co, ce):
     return cds
 
 
-def make(kind, k, strand, coding, kw, chunk):
+def make(kind, k, strand, coding, kw, chunk, chunk_strand=PLUS):
     ex = layout_blocks(k, kw)
-    par = chunk_parent(kw["w"], L) if chunk else None
+    par = chunk_parent(kw["w"], L, strand=chunk_strand) if chunk else None
     if kind == "tx":
         if coding:
             a, b = coding[:2]
@@ -124,6 +124,42 @@ def bed_fn(kind, k, strand, coding, chunk_mode, text_mode):
             bed = o.to_bed12()
             off = 0
         return check_record(bed, ex, cds, strand, off, text_mode)
+
+    return fn
+
+
+def bed_minus_chunk_fn(kind, k, strand, coding):
+    """chunk placed on the MINUS strand of the chromosome: chunk coordinates run backwards (position x -> w+L-1-x), the object's strand is reversed in the chunk
+    view; the chunk-relative record is the mirrored source, the chromosome record is unchanged"""
+
+    def fn(**kw):
+        ex, cds, o = make(kind, k, strand, coding, kw, True, MINUS)
+        w = kw["w"]
+        mirror = lambda bl: [(w + L - e, w + L - s_) for s_, e in reversed(bl)]  # noqa: E731
+        rel = check_record(o.to_bed12(chromosome_relative_coordinates=False), mirror(ex), mirror(cds) if cds else None, strand.reverse(), 0, False)
+        return AND(rel, check_record(o.to_bed12(), ex, cds, strand, 0, False))
+
+    return fn
+
+
+def name_cross_class_fn(order):
+    """the name column is looked up on the exported object itself: a name that is an attribute of ANOTHER class only is used literally, whatever objects of
+    other classes were exported with that name before"""
+
+    def fn(**kw):
+        ex = layout_blocks(1, kw)
+        f = FeatureInterval([ex[0][0]], [ex[0][1]], PLUS, feature_name="fn", feature_id="fid", sequence_name="chr9", guid=5)
+        t = TranscriptInterval([ex[0][0]], [ex[0][1]], PLUS, transcript_symbol="ts", transcript_id="tid", sequence_name="chr9", guid=6)
+        want = {("f", "transcript_symbol"): "transcript_symbol", ("t", "transcript_symbol"): "ts", ("f", "feature_name"): "fn", ("t", "feature_name"): "feature_name",
+                ("t", None): "ts", ("f", None): "fn", ("f", "transcript_id"): "transcript_id", ("t", "transcript_id"): "tid", ("t", "feature_id"): "feature_id",
+                ("f", "feature_id"): "fid"}
+        ok = True
+        for who, name in order:
+            o = f if who == "f" else t
+            for mode in (True, False) if False else (True,):
+                b = o.to_bed12(chromosome_relative_coordinates=mode) if name is None else o.to_bed12(name=name, chromosome_relative_coordinates=mode)
+                ok = ok and b.name == want[(who, name)] and str(b).split("\t")[3] == want[(who, name)]
+        return ok
 
     return fn
 
@@ -262,6 +298,33 @@ def obligations(tier):
                                desc="BED12 of a 17-block %s%s: count/sizes/starts consistent, decoded blocks and thick range == source" % (
                                    kind, " whose CDS runs from exon 3 to exon 15" if coding else ""),
                                bounds="17 blocks (len>=1, gaps>=1), unbounded ints", examples=[ex]))
+    orders = [(("f", "transcript_symbol"), ("t", None), ("t", "transcript_symbol")), (("t", "feature_name"), ("f", None), ("f", "feature_name")),
+              (("t", "transcript_id"), ("f", "transcript_id"), ("t", "transcript_id")), (("f", "feature_id"), ("t", "feature_id"), ("f", "feature_id"), ("t", None))]
+    for n, order in enumerate(orders):
+        out.append(Obl("bed12_name_cross_class_%d" % n, name_cross_class_fn(order), {"s0": int, "l0": int}, lambda s0, l0: s0 >= 0 and l0 >= 1,
+                       budget=60, cost=2, stubs=dict(tokens=True),
+                       desc="name column across classes in one process, order %s: an attribute name of the OTHER class is used literally, an attribute of the exported "
+                            "object is looked up, the default name is the object's own" % " -> ".join("%s(%s)" % (w_, nm or "default") for w_, nm in order),
+                       bounds="1 block, feature and transcript exported alternately", examples=[dict(s0=3, l0=4)]))
+    for strand in (PLUS, MINUS):
+        for kind, coding, k in (("feat", None, 2), ("tx", (0, 1), 2), ("tx", (0, 0), 1)) if quick else (("feat", None, 2), ("tx", None, 2), ("tx", (0, 1), 2), ("tx", (0, 0), 1),
+                                                                                                    ("tx", (1, 1), 2), ("tx", (0, 2), 3)):
+            params = dict(layout_params(k))
+            params["w"] = int
+            if coding:
+                params.update(co=int, ce=int)
+            ex = {"s0": 103, "w": 100}
+            for i in range(k):
+                ex["l%d" % i] = 3
+            for i in range(1, k):
+                ex["g%d" % i] = 2
+            if coding:
+                ex.update(co=1, ce=2)
+            out.append(Obl("bed12_minus_chunk_%s_k%d_%s_%s" % (kind, k, sname(strand), ("cds%d-%d" % coding) if coding else "nc"), bed_minus_chunk_fn(kind, k, strand, coding),
+                           params, pre_fn(k, coding, True), budget=600, cost=60 if coding else 10,
+                           desc="object on a chunk placed on the MINUS strand: the chunk-relative record is the mirrored source (blocks, strand, thick range = mirrored CDS "
+                                "bounds), the chromosome record is the source", bounds="%d blocks inside a minus-strand chunk of length %d at symbolic offset" % (k, L),
+                           examples=[ex, dict(ex, s0=101)]))
     out.append(Obl("bed12_name_score_rgb", name_fallback_fn(), {"s0": int, "l0": int}, lambda s0, l0: s0 >= 0 and l0 >= 1,
                    budget=60, cost=2, stubs=dict(tokens=True), desc="name attribute lookup / literal fallback, score and rgb columns",
                    bounds="1 block", examples=[dict(s0=3, l0=4)]))
